@@ -67,6 +67,17 @@ template <class GO> bool shapes(bool thorough, GO go) {
         if (!go(Bytes(base) + ".com")) return false; if (!go(Bytes(base) + ":1:2")) return false; if (!go("[" + Bytes(base))) return false; if (!go(Bytes(base) + "]")) return false;
         Bytes nb = base; nb.pop_back(); if (!go(nb)) return false;
     }
+    // every byte value written over / inserted before every position of a few valid literals (a literal that stays valid
+    // after such a change is valid by the reference too, so nothing is assumed about which ones those are)
+    for (const char *base : {"[IPv6:fe80::01f]", "[IPv6:2001:0db8:0000:0000:0000:ff00:0042:8329]", "[IPv6:::ffff:192.0.2.128]", "[192.168.10.1]", "[IPv6:1:2:3:4:5:6:7.8.9.10]",
+                             "[2001:db8::0a]", "[IPv6:0::0]"}) {
+        Bytes b0 = base;
+        for (size_t pos = 1; pos < b0.size(); pos++) for (int x = 1; x < 256; x++) {
+            if (x == '@') continue;
+            Bytes r = b0; r[pos] = (char) x; if (r != b0 && !go(r)) return false;
+            Bytes i = b0; i.insert(i.begin() + pos, (char) x); if (!go(i)) return false;
+        }
+    }
     return true;
 }
 } // namespace lit
